@@ -350,7 +350,12 @@ def hardware_for(draw, spec, configs=("accel",), force=None):
         if draw(st.integers(0, 4)) > 0 or force.get("compute"):
             entry.append({"component": names["mul"], "bindings": [{"op": "mul"}]})
         if draw(st.integers(0, 4)) > 0:
-            entry.append({"component": names["add"], "bindings": [{"op": "add"}]})
+            if not force.get("compute") and entry[-1].get("component") == names["mul"] and draw(st.integers(0, 7)) == 0:
+                # one functional unit bound to both operations (a MAC): the pinned compiler does not implement it (an assertion,
+                # counted as a crash and dropped); a compiler that does must count and print it correctly
+                entry[-1]["bindings"].append({"op": "add"})
+            else:
+                entry.append({"component": names["add"], "bindings": [{"op": "add"}]})
         expr = [e for e in spec["exprs"] if S.out_name(e) == out][0]
         if isect_type and (hint.get("isect") or draw(st.integers(0, 3)) > 0):
             # ranks where exactly two input tensors are co-iterated
